@@ -327,7 +327,50 @@ func ruleEmptyOnly(c *Ctx, remove *ssa.Function, dirT *types.Named) {
 				}
 				return false
 			}
-			if !facts.HoldsOnAllEdges(ci.Block, established) {
+			// (d) the test lives in a private guard helper: H(dir, name) whose every possibly-nil
+			// return has established one of the two facts
+			var guards []*ssa.Call
+			for _, hc := range Calls(ri.fn) {
+				call, isCall := hc.Instr.(*ssa.Call)
+				if !isCall || hc.Static == nil || hc.Static.Pkg != ri.fn.Pkg || hc.Static.Blocks == nil || errResultIndex(hc.Static.Signature) < 0 {
+					continue
+				}
+				sameName := false
+				for _, a := range hc.Common.Args {
+					if resolve(a) == resolve(ci.Arg(0)) || sameValue(resolve(a), resolve(ci.Arg(0))) {
+						sameName = true
+					}
+				}
+				if sameName && guardHelperEstablishesRemovable(hc.Static, dirT) {
+					guards = append(guards, call)
+				}
+			}
+			// every edge into the removal: the flag has the value Remove never passes, or one of the
+			// facts is established, or a guard helper returned nil
+			edgeOK := func(fs factSet) bool {
+				for p, v := range ri.env {
+					for k := range fs {
+						if k.v == ssa.Value(p) && k.pol == !v {
+							return true
+						}
+					}
+				}
+				if established(fs) {
+					return true
+				}
+				for _, g := range guards {
+					ev := ssa.Value(g)
+					if g.Call.Signature().Results().Len() > 1 {
+						ev = firstOr(resultN(g, errResultIndex(g.Call.Signature())))
+					}
+					if ev != nil && knownNilIn(fs, ev, true) {
+						okc = true
+						return true
+					}
+				}
+				return false
+			}
+			if !facts.HoldsOnAllEdges(ci.Block, edgeOK) {
 				okb, okc = false, false
 			}
 			c.Check(okb || okc, "R3", con, ci.Pos(),
@@ -335,7 +378,7 @@ func ruleEmptyOnly(c *Ctx, remove *ssa.Function, dirT *types.Named) {
 				"a node is removed on the empty-only path with neither 'not a directory' nor 'directory is empty' established — Remove of a non-empty directory deletes a subtree")
 		}
 	}
-	c.Floor("R3", n, 2)
+	c.Floor("R3", n, 1)
 }
 
 func isPtrTo(t types.Type, n *types.Named) bool {
@@ -543,4 +586,62 @@ func ruleSnapshotIn(c *Ctx, methods map[string]*ssa.Function, fileT *types.Named
 		c.Check(!stores[fp{w, 1}], "R6", "memfs.(FileHandler).Write(p)", w.Pos(), "written bytes are appended (copied) to the file content", "the written chunk becomes File.data by reference")
 	}
 	c.Floor("R6", n, 2)
+}
+
+// guardHelperEstablishesRemovable: every return of h whose error can be nil is
+// reached only with "the looked-up node is not a *Dir" or "that directory has no
+// children" established.
+func guardHelperEstablishesRemovable(h *ssa.Function, dirT *types.Named) bool {
+	ei := errResultIndex(h.Signature)
+	if ei < 0 {
+		return false
+	}
+	facts := factsFor(h)
+	var dirAsserts []ssa.Value
+	eachInstr(h, func(b *ssa.BasicBlock, i int, in ssa.Instruction) {
+		if ta, ok := in.(*ssa.TypeAssert); ok && isPtrTo(ta.AssertedType, dirT) {
+			dirAsserts = append(dirAsserts, append(resultN(ta, 0), ta)...)
+		}
+	})
+	established := func(fs factSet) bool {
+		for k := range fs {
+			if ex, ok := k.v.(*ssa.Extract); ok && ex.Index == 1 {
+				if ta, ok := ex.Tuple.(*ssa.TypeAssert); ok && isPtrTo(ta.AssertedType, dirT) && !k.pol {
+					return true
+				}
+			}
+			if bo, ok := k.v.(*ssa.BinOp); ok {
+				var other ssa.Value
+				if kv, ok := constInt(bo.Y); ok && kv == 0 {
+					other = bo.X
+				} else if kv, ok := constInt(bo.X); ok && kv == 0 {
+					other = bo.Y
+				} else {
+					continue
+				}
+				empty := (bo.Op == token.EQL && k.pol) || (bo.Op == token.NEQ && !k.pol) || (bo.Op == token.GTR && !k.pol) || (bo.Op == token.LEQ && k.pol)
+				if !empty {
+					continue
+				}
+				for _, d := range dirAsserts {
+					if derivesFrom(other, d, 0) {
+						return true
+					}
+				}
+			}
+		}
+		return false
+	}
+	n := 0
+	for _, r := range returnsOf(h) {
+		ev := r.Results[ei]
+		if facts.HoldsOnAllEdges(r.Block(), func(fs factSet) bool { return knownNilIn(fs, ev, false) }) {
+			continue
+		}
+		n++
+		if !facts.HoldsOnAllEdges(r.Block(), established) {
+			return false
+		}
+	}
+	return n > 0
 }
